@@ -10,7 +10,8 @@ RULE = ("target strings by class (dotted IPv4, IPv4 CIDR /0../32 aligned and una
         "nets (IPv4 /0../32, 16-byte spellings, IPv6, non-canonical masks, nil) through the real ipGenerator with seeded "
         "math/rand (risky ones in a child process); exclusion files (hosts, CIDRs nested/overlapping/covering, comments, "
         "blanks, one refused line in a sixth of them) through the real parseExcludeFile + cidranger + filter stage, "
-        "membership asked for every address of a /20../32; non-trivial = accepted target / complete or prefix walk / "
+        "membership asked for every address of a /20../32; end to end: arp/icmp/tcp/udp/tcp fin/socks/elastic/docker with "
+        "IPv6, mapped and garbage targets in a network namespace with a wire log; non-trivial = accepted target / complete or prefix walk / "
         "accepted exclusion file; distinct by input")
 
 CODES = {1: "ParseIPNet: accept/reject differs from the model", 2: "ParseIPNet: accepted net differs from the model",
@@ -303,6 +304,43 @@ def run(ctx):
             per_class[c] = per_class.get(c, 0) + 1
             if per_class[c] <= 2 and len(ctx.findings) < 8:
                 report(ctx, o, why)
+    # end to end: every command given a target that is not IPv4 must exit non-zero with nothing on the wire
+    if rows and ctx.harness_build("c01"):
+        sx = os.path.join(ctx.work, "sx")
+        rc, out = verif.sh(["go", "build", "-o", sx, "."], env=verif.GOENV, cwd=verif.REPO, timeout=900)
+        e2e = []
+        if rc != 0:
+            ctx.broken.append(("correspondence: the sx binary does not build", out[-1500:]))
+        else:
+            ok, _ = ctx.harness_run("c01", ["-e2e", sx, "-e2eset", "refuse", "-out", "e2e.jsonl", "-seed", ctx.seed,
+                                            "-ne2e", 11 if quick else 120], timeout=3000)
+            if ok:
+                e2e = ctx.read_jsonl(os.path.join(ctx.work, "e2e.jsonl"))
+        for idx, o in enumerate(e2e):
+            if o.get("skipped"):
+                ctx.skipped.append("e2e %s: %s" % (o["class"], o["skipped"][:200]))
+                continue
+            ctx.count("e2e:" + o["class"], ("e2e", idx), nontrivial=True,
+                      sample={"kind": "e2e", "argv": " ".join(o["argv"])[-120:], "frames": o["nframes"], "exit": o["rc"]})
+            why = None
+            if o["nframes"]:
+                fb = bytes.fromhex(o["frames"])
+                first = fb[:6]
+                why = "sx %s: %d frame(s) reach the wire (first: ethertype %04x towards %s)" % (
+                    " ".join(o["argv"]), o["nframes"], int.from_bytes(first[:2], "big"), dotted(int.from_bytes(first[2:], "big")))
+            elif o["rc"] == 0:
+                why = "sx %s: exits with status 0 instead of refusing the target" % " ".join(o["argv"])
+            elif o["rc"] not in (1,):
+                why = "sx %s: ends with status %d: %s" % (" ".join(o["argv"]), o["rc"], (o.get("stderr") or "")[-200:])
+            if why:
+                c = "e2e:" + o["class"]
+                per_class[c] = per_class.get(c, 0) + 1
+                if per_class[c] <= 2:
+                    path = ctx.write_replay("e2e-%d" % idx, {"property": "C02", "what": why,
+                                                             "input": {"kind": "e2e", "index": idx, "seed": ctx.seed, "argv": o["argv"]},
+                                                             "observed": {k: v for k, v in o.items() if k != "frames"},
+                                                             "replay_cmd": "bin/check C02 --replay <this file>"})
+                    ctx.findings.append({"key": "e2e:" + o["argv"][-1], "what": why, "replay": path})
     if per_class:
         ctx.info.append("failing inputs per class: %s" % json.dumps(per_class))
     if model_ok and rows:
@@ -335,6 +373,17 @@ def replay(ctx, path):
     if not i:
         print(json.dumps(r, indent=1))
         return 1
+    if i["kind"] == "e2e":
+        if not ctx.harness_build("c01"):
+            return 1
+        sx = os.path.join(ctx.work, "sx")
+        rc, out = verif.sh(["go", "build", "-o", sx, "."], env=verif.GOENV, cwd=verif.REPO, timeout=900)
+        ctx.harness_run("c01", ["-e2e", sx, "-e2eset", "refuse", "-out", "e2e.jsonl", "-seed", i["seed"], "-ne2e", i["index"] + 1], timeout=600)
+        o = ctx.read_jsonl(os.path.join(ctx.work, "e2e.jsonl"))[i["index"]]
+        bad = o["nframes"] > 0 or o["rc"] != 1
+        print("replay sx %s: %d frame(s) on the wire, exit status %d%s" % (" ".join(o["argv"]), o["nframes"], o["rc"],
+                                                                           "" if bad else " (property holds on this input)"))
+        return 1 if bad else 0
     if not ctx.harness_build("c02"):
         return 1
     if i["kind"] == "parse":
